@@ -294,3 +294,45 @@ Print Assumptions C14_flush_then_repair_plain.
 Print Assumptions C14_flush_then_repair_enc.
 Print Assumptions C14_flush_then_repair_enc_auth.
 Print Assumptions C14_example_flush_then_repair.
+(* ====================================================================================
+   Compressed archives: the fail-safe decompression reader (model theories/CompFailSafe.v of
+   CompressionLayerFailSafeReader; brotli's streaming decoder enters as an abstract step
+   function under the explicit DecoderLaws of theories/CompFailSafeProofs.v, every one of
+   which the harness job c02-comp observes on the real decoder).  `run D fin bs w` packs a
+   decoder satisfying the laws, an inner source delivering the available bytes w in order
+   with any short reads, the client's read sizes (> 0) and fuel (2|w|+2 passes per read,
+   |plaintext|+1 reads); run_result is CompFailSafe.fs_read_all: everything delivered until
+   the first Ok(0) / error, and how it ended.  bs: the compressed blocks (c_i, p_i); tail:
+   the bytes that follow them (the SizesInfo footer), of which a fresh decoder makes nothing.
+   ==================================================================================== *)
+From MLA Require Import CompFailSafe CompFailSafeProofs CompFailSafeStep CompFailSafeThms CompFailSafeToy.
+
+(* the destination holds the complete blocks b1 and the bytes c' the encoder of the current
+   block had emitted when flush() returned.  dec_flush — the encoder's flush contract,
+   stated on the wire: everything written to the block so far is decodable from c'
+   (D c' = written).  Then the fail-safe reader delivers everything written before the flush *)
+Theorem C14_fs_comp_flush :
+  forall BLOCK FSBUF : N, 0 < FSBUF -> BLOCK < 2 ^ 32 ->
+  forall (D : bytes -> bytes) (fin : bytes -> bool) (tail : bytes), dead D fin tail ->
+  forall bs : list (bytes * bytes), Forall (good_block BLOCK D fin) bs ->
+  forall (b1 : list (bytes * bytes)) (c p : bytes) (b2 : list (bytes * bytes)) (c' written : bytes)
+         (r : run D fin bs (concat (map fst b1) ++ c')),
+    bs = b1 ++ (c, p) :: b2 -> prefix c' c -> len c' < len c -> D c' = written ->
+    exists e : res unit, run_result BLOCK FSBUF D fin bs r = (plain_of b1 ++ written, e) /\ fs_end e.
+Proof. exact fs_comp_flush. Qed.
+
+(* non-vacuity (toy codec, BLOCK = 8, FSBUF = 4): block 0 complete, 3 payload bytes of block 1 *)
+Example C14_fs_comp_example :
+  exists e, run_result 8 4 tD tfin fsx_bs (fsx_run (concat (map fst [(tcomp fsx_p0, fsx_p0)]) ++ [8; 9; 10; 11]) [2] 3)
+            = (plain_of [(tcomp fsx_p0, fsx_p0)] ++ [9; 10; 11], e) /\ fs_end e.
+Proof.
+  apply (C14_fs_comp_flush 8 4 ltac:(lia) ltac:(lia) tD tfin fsx_tail fsx_dead fsx_bs fsx_good
+           [(tcomp fsx_p0, fsx_p0)] (tcomp fsx_p1) fsx_p1 [(tcomp fsx_p2, fsx_p2)] [8; 9; 10; 11] [9; 10; 11]).
+  - reflexivity.
+  - exists [12; 13; 14; 15; 16]. reflexivity.
+  - vm_compute. reflexivity.
+  - reflexivity.
+Qed.
+
+Print Assumptions C14_fs_comp_flush.
+Print Assumptions C14_fs_comp_example.
